@@ -57,8 +57,38 @@ m('M49-merkle-const-capbits', ['C12'], (F, "capIndexBits := xIndexBits[len(xInde
 m('M50-commit-leaf-coord0', ['C12'], (F, "\t\t\tfieldEvals = append(fieldEvals, evals[j][1])\n", "\t\t\tfieldEvals = append(fieldEvals, evals[j][0])\n"))
 m('M51-tables-vars-differ', ['C09'], ('poseidon/goldilocks_constants.go', "var MDS0TO0_VAR = frontend.Variable(uint64(25))", "var MDS0TO0_VAR = frontend.Variable(uint64(26))"))
 
+# ---- C20 / C03 / C04 / C01 / C11
+m('M33-shape-no-steps-guard', ['C20'], (FU, "\t\tif len(steps) != len(params.ReductionArityBits) {\n\t\t\tpanic(\"length of steps != params.reduction_arity_bits\")\n\t\t}\n", ""))
+m('M33b-shape-no-finalpoly-guard', ['C20'], (FU, "\tif len(finalPoly.Coeffs) != params.FinalPolyLen() {\n\t\tpanic(\"len finalPoly doesn't match params FinalPolyLen\")\n\t}\n", "\t_ = finalPoly\n"))
+m('M34-no-shape-validation', ['C20'], (F, "\tvalidateFriProofShape(friProof, instance, f.friParams)\n", ""))
+m('M35-rounds-guard-lt', ['C20'], (F, "if int(f.friParams.Config.NumQueryRounds) != len(friProof.QueryRoundProofs) {", "if int(f.friParams.Config.NumQueryRounds) < len(friProof.QueryRoundProofs) {"))
+m('M35b-shape-first-round-only', ['C20'], (FU, "\tfor _, queryRound := range queryRoundProofs {", "\tfor _, queryRound := range queryRoundProofs[:1] {"))
+m('M35c-no-interp-arity-guard', ['C20'], (F, "\tif (len(evals)) != arity {\n\t\tpanic(\"len(evals) != arity\")\n\t}\n", "\t_ = arity\n"))
+m('M35d-no-indices-guard', ['C20'], (F, "\tif len(friChallenges.FriQueryIndices) != len(friProof.QueryRoundProofs) {\n\t\tpanic(fmt.Sprintf(\n\t\t\t\"Number of query indices (%d) should equal number of query round proofs (%d)\",\n\t\t\tlen(friChallenges.FriQueryIndices),\n\t\t\tlen(friProof.QueryRoundProofs),\n\t\t))\n\t}\n", ""))
+m('M35e-cap16-guard-and', ['C20'], (F, "if len(capIndexBits) != 4 || len(merkleCap) != 16 {", "if len(capIndexBits) != 4 && len(merkleCap) != 16 {"))
+m('M41-no-hiding-refusal', ['C20'], ('types/common_data.go', "\tif raw.FriParams.Hiding {\n\t\tpanic(\"Circuit has hiding enabled, which is not supported\")\n\t}\n", ""))
+m('M31-no-limb-width-check', ['C03'], (U, "\t\t\tglChip.RangeCheckWithMaxBits(slicePub[i], 32)\n", ""), (U, "\tglChip := gl.New(api)\n", ""))
+m('M31b-limb-width-64', ['C03'], (U, "glChip.RangeCheckWithMaxBits(slicePub[i], 32)", "glChip.RangeCheckWithMaxBits(slicePub[i], 64)"))
+m('M31c-assert-3-values', ['C03'], (U, "\tfor j := 0; j < 4; j++ {\n\t\tpublicInputLimb", "\tfor j := 0; j < 3; j++ {\n\t\tpublicInputLimb"))
+m('M31d-pis-guard-le', ['C03', 'C20'], (U, "if len(publicInputs) != 16 {", "if len(publicInputs) < 16 {"))
+m('M31e-width-check-other-elem', ['C03'], (U, "glChip.RangeCheckWithMaxBits(slicePub[i], 32)", "glChip.RangeCheckWithMaxBits(slicePub[0], 32)"))
+m('M32-untag-fixed', ['C04'], (U, "\tVerifierData      variables.VerifierOnlyCircuitData `gnark:\"-\"`\n", "\tVerifierData      variables.VerifierOnlyCircuitData\n"))
+m('M32b-untag-verifiercircuit', ['C04'], (U, "\tVerifierData variables.VerifierOnlyCircuitData `gnark:\"-\"`\n", "\tVerifierData variables.VerifierOnlyCircuitData\n"))
+m('M46-pow-observed-late', ['C11', 'C01'], (CH, "\tc.ObserveElement(powWitness)\n\n\tfriPowResponse := c.GetChallenge()\n", "\tfriPowResponse := c.GetChallenge()\n\tc.ObserveElement(powWitness)\n"))
+m('M46b-skip-quotient-cap', ['C11'], (V, "\tchallenger.ObserveCap(proof.QuotientPolysCap)\n", ""))
+m('M46c-zsnext-first-batch', ['C11'], (F, "\tvalues = append(values, c.PlonkZs...)         // num_challenges\n", "\tvalues = append(values, c.PlonkZsNext...)     // num_challenges\n"), (F, "\tzetaNextBatch := OpeningBatch{Values: c.PlonkZsNext}", "\tzetaNextBatch := OpeningBatch{Values: c.PlonkZs}"))
+m('M46d-gammas-before-betas', ['C11'], (V, "\t\tPlonkBetas:  plonkBetas,\n\t\tPlonkGammas: plonkGammas,", "\t\tPlonkBetas:  plonkGammas,\n\t\tPlonkGammas: plonkBetas,"))
+m('M46e-observe-cap-from-1', ['C11'], (CH, "\tfor i := 0; i < len(cap); i++ {\n\t\tc.ObserveBN254Hash(cap[i])", "\tfor i := 1; i < len(cap); i++ {\n\t\tc.ObserveBN254Hash(cap[i])"))
+m('M47-no-buffer-reset', ['C11'], (CH, "\t// Clear the output buffer\n\tc.outputBuffer = make([]gl.Variable, 0)\n\tc.inputBuffer = append(c.inputBuffer, element)", "\tc.inputBuffer = append(c.inputBuffer, element)"))
+m('M52-verify-wrong-pis', ['C01'], (U, "verifierChip.Verify(c.ProofWithPis.Proof, c.ProofWithPis.PublicInputs, c.VerifierData)", "verifierChip.Verify(c.ProofWithPis.Proof, c.ProofWithPis.PublicInputs[:8], c.VerifierData)"))
+m('M53-plonk-hash-of-nothing', ['C01'], (V, "\tpublicInputsHash := c.GetPublicInputsHash(publicInputs)\n", "\tpublicInputsHash := c.GetPublicInputsHash(publicInputs[:0])\n"))
+m('M54-no-plonk-verify', ['C01', 'C16'], (V, "\tc.plonkChip.Verify(proofChallenges, proof.Openings, publicInputsHash)\n", ""))
+m('R15-guard-positive-form-pis', [], (U, "\tif len(publicInputs) != 16 {\n\t\treturn fmt.Errorf(\"expected 16 public inputs, got %d\", len(publicInputs))\n\t}", "\tif n := len(publicInputs); n != 16 {\n\t\treturn fmt.Errorf(\"expected 16 public inputs, got %d\", n)\n\t}"))
+m('R16-challenger-local-rename', [], (V, "\tvar circuitDigest = verifierData.CircuitDigest\n\n\tchallenger.ObserveBN254Hash(circuitDigest)", "\tchallenger.ObserveBN254Hash(verifierData.CircuitDigest)"))
+m('R17-packing-muladd-order', [], (U, "publicInputLimb = api.Add(pubU32, api.Mul(pubByte, publicInputLimb))", "publicInputLimb = api.Add(api.Mul(publicInputLimb, pubByte), pubU32)"))
+
 # ---- behaviour-preserving refactors: must stay silent on every property
-ALL = ['C05', 'C06', 'C07', 'C08', 'C09', 'C12', 'C13', 'C14', 'C16', 'C17']
+ALL = ['C01', 'C03', 'C04', 'C05', 'C06', 'C07', 'C08', 'C09', 'C11', 'C12', 'C13', 'C14', 'C16', 'C17', 'C20']
 m('R02-inline-assertLeadingZeros', [], (F, "\tf.assertLeadingZeros(friChallenges.FriPowResponse, f.friParams.Config)\n", "\tf.gl.RangeCheckWithMaxBits(friChallenges.FriPowResponse, 64-f.friParams.Config.ProofOfWorkBits)\n"))
 m('R03-indexed-loops-sweep', [], (V, "\tfor _, wire := range proof.Openings.Wires {\n\t\tc.glChip.RangeCheckQE(wire)\n\t}", "\tfor i := 0; i < len(proof.Openings.Wires); i++ {\n\t\tc.glChip.RangeCheckQE(proof.Openings.Wires[i])\n\t}"))
 m('R04-split-ext-assert', [], (P, "\t\tglApi.AssertIsEqualExtension(vanishingPolysZeta[i], prod)", "\t\tglApi.AssertIsEqual(vanishingPolysZeta[i][0], prod[0])\n\t\tglApi.AssertIsEqual(vanishingPolysZeta[i][1], prod[1])"))
